@@ -74,7 +74,8 @@ void nl_create_one_liner(Chunk *vbrace_open)
    }
    size_t nl_total = 0;
 
-   while (tmp->IsNot(CT_VBRACE_CLOSE))
+   while (  tmp->IsNotNullChunk()                     // a virtual brace the end of the file leaves open
+         && tmp->IsNot(CT_VBRACE_CLOSE))
    {
       if (tmp->IsNewline())
       {
